@@ -172,7 +172,9 @@ def run_spec(tr, dev0, slot_of_vol, checks=("read", "state")):
                 new_off = int(stt[1])
                 n = new_off - f["pos"]
                 if okk:
-                    if n != len(data) and not (f["pos"] + len(data) > 0xFFFFFFFF):
+                    if n != len(data) and f["pos"] + len(data) > 0xFFFFFFFF:
+                        problems.append("KNOWN-maxsize op %d: write of %d bytes at offset %d reported success but stored only %d bytes (silent clip at the 4 GiB - 1 limit)" % (k, len(data), f["pos"], n))
+                    elif n != len(data):
                         problems.append("op %d: write reported success but the offset advanced by %d, not %d" % (k, n, len(data)))
                 if n < 0 or n > len(data):
                     problems.append("op %d: write moved the offset by %d (buffer %d)" % (k, n, len(data)))
